@@ -282,7 +282,16 @@ func (in *Inst[M, A, V, E]) Run(w *Wire) *Outcome {
 			continue
 		}
 		var is prio3.InputShare[V, E]
-		if p := lib.Try(in.entry("InputShare.UnmarshalBinary"), w.IS[j], func() { is, err = in.decIS(w.AggID[j], w.IS[j]) }); pnc(j, "InputShare.UnmarshalBinary", p) {
+		// the wire buffer is overwritten as soon as the share is decoded (an
+		// aggregator re-using its receive buffer): the decoded share must not
+		// live in it
+		wireIS := append([]byte(nil), w.IS[j]...)
+		if p := lib.Try(in.entry("InputShare.UnmarshalBinary"), w.IS[j], func() {
+			is, err = in.decIS(w.AggID[j], wireIS)
+			for i := range wireIS {
+				wireIS[i] ^= 0xA5
+			}
+		}); pnc(j, "InputShare.UnmarshalBinary", p) {
 			failed = true
 			continue
 		}
@@ -294,7 +303,16 @@ func (in *Inst[M, A, V, E]) Run(w *Wire) *Outcome {
 		var st *prio3.PrepState[V, E]
 		var sh *prio3.PrepShare[V, E]
 		vk, nonce := w.VK[j], w.Nonce[j]
-		if p := lib.Try(in.entry("PrepInit"), w.IS[j], func() { st, sh, err = in.P.PrepInit(&vk, &nonce, w.AggID[j], ps, is) }); pnc(j, "PrepInit", p) {
+		if p := lib.Try(in.entry("PrepInit"), w.IS[j], func() {
+			st, sh, err = in.P.PrepInit(&vk, &nonce, w.AggID[j], ps, is)
+			// verification key and nonce variables are the caller's again
+			for i := range vk {
+				vk[i] ^= 0xA5
+			}
+			for i := range nonce {
+				nonce[i] ^= 0xA5
+			}
+		}); pnc(j, "PrepInit", p) {
 			failed = true
 			continue
 		}
